@@ -48,4 +48,31 @@ ENTRIES = {
             "object; the control group must return exactly the tagged class.",
             "Only JSON-representable tags; module alphabet fixed (stdlib + harness modules).",
             "DESIGN.md section 3 C19"),
+    "C13": ("model_checking",
+            "stateless exploration of all create/drop/sweep/query/clear histories on the real registry, weak-reference census oracle",
+            "Every operation sequence to depth 5 from the empty registry and depth 4 from three pre-populated registries "
+            "(thorough: 6/5, 12-operation alphabet) over a diamond class hierarchy is replayed on the real SymbolGraph; every "
+            "query inside the history and a final query per type must return exactly the live instances (multiset of ids) "
+            "according to the harness's own weak references. No de-duplication of states, because the future depends on "
+            "rustworkx's free list.",
+            "CPython refcounting; clear() interpreted as the documented reset; instances kept alive by krrood itself are C20's subject.",
+            "DESIGN.md section 3 C13"),
+    "C14": ("model_checking",
+            "differential exploration: every garbage-producing prefix history x every assertion suffix vs the same suffix on a cleared graph",
+            "All prefix histories to depth 4 (x22 suffixes) and depth 5 (x6 core suffixes) of creating, relating, dropping and "
+            "sweeping persons/companies/CEOs, closed by dropping every prefix object with and without a final sweep, are "
+            "followed by an assertion suffix on fresh objects; graph relations and field contents about the suffix objects "
+            "must equal those of the suffix alone on a cleared graph and the reference closure.",
+            "Node-index recycling is exercised deterministically (rustworkx LIFO free list); CPython address reuse is not "
+            "controlled by the harness, so id()-keyed staleness is only caught when the allocator happens to reuse addresses.",
+            "DESIGN.md section 3 C14"),
+    "C16": ("model_checking",
+            "exhaustive sequences of write operations on real managed fields vs plain list/set semantics + reference closure after every step",
+            "All sequences of <=2 operations from a 36/19-operation alphabet (and <=3 from a 9/7-operation core; thorough: 3 "
+            "from the full alphabet) on a list-valued and a set-valued managed field, from initial contents of size 0-2 "
+            "built by append or by assignment, run on the real descriptors; after every operation the field must equal "
+            "what Python does to a plain list/set (order and repetitions included) and the graph and all inverse/super "
+            "fields must contain the closure of the current elements.",
+            "Retraction (removal of consequences of elements that left the field) is outside the statement and not checked.",
+            "DESIGN.md section 3 C16"),
 }
